@@ -1,0 +1,30 @@
+//go:build verif
+// +build verif
+
+package leveldbstore
+
+// Verification-only export: the same in-memory store as NewMemLevelDBStore, but with a caller
+// chosen goleveldb write-buffer size. The default 4 MiB arena is allocated and zeroed on every
+// Open, which dominates the cost of property checks that need a fresh store per generated case.
+// No logic of the store wrapper is changed.
+
+import (
+	"github.com/syndtr/goleveldb/leveldb"
+	"github.com/syndtr/goleveldb/leveldb/filter"
+	"github.com/syndtr/goleveldb/leveldb/opt"
+	"github.com/syndtr/goleveldb/leveldb/storage"
+)
+
+func VerifNewMemLevelDBStore(writeBuffer int) (*LevelDBStore, error) {
+	store := storage.NewMemStorage()
+	o := opt.Options{
+		NoSync:      false,
+		Filter:      filter.NewBloomFilter(BITSPERKEY),
+		WriteBuffer: writeBuffer,
+	}
+	db, err := leveldb.Open(store, &o)
+	if err != nil {
+		return nil, err
+	}
+	return &LevelDBStore{db: db, batch: nil}, nil
+}
